@@ -2,6 +2,7 @@ import PynModel.Driver
 import PynModel.Core.Series
 import PynModel.Core.Group
 import PynModel.Core.Meta
+import PynModel.Process.Convolve
 /-!
 # Line protocol, part 2: container-level operations (series constructor and histories)
 `snew <t> <rows> <sup|none>`            → `t|rows|sup|num/den`
@@ -193,12 +194,24 @@ def metaStep (toks : List String) : String :=
     | _, _, _ => "bad-op"
   | _ => "bad-op"
 
+/-- `conv <mode> <ts> <x> <k> <sup pairs>` → the convolved signal -/
+def convStep (toks : List String) : String :=
+  match toks with
+  | ["conv", mode, ts, x, k, sup] =>
+    match mode.toNat?, parseArr ts, parseArr x, parseArr k, parsePairs sup with
+    | some mode, some ts, some x, some k, some sup =>
+      if ts.size = x.size ∧ 0 < k.size ∧ mode < 3 then showArr (convolve mode ts x.toList k.toList sup.toList).toArray
+      else "pre-fail"
+    | _, _, _, _, _ => "bad-op"
+  | _ => "bad-op"
+
 def stepAll (line : String) : String :=
   let toks := (line.trimAscii.toString.splitOn " ").filter (· ≠ "")
   match toks with
   | "snew" :: _ => seriesStep toks
   | "hist" :: _ => seriesStep toks
   | "ghist" :: _ => groupStep toks
+  | "conv" :: _ => convStep toks
   | "tnew" :: _ => metaStep toks
   | "tget" :: _ => metaStep toks
   | "tint" :: _ => metaStep toks
